@@ -678,6 +678,17 @@ func (env *TEnv) trCall(x *ECall) (TV, error) {
 		return n.tr(x.Args[0])
 	case "dyncalls": // dyncalls(): ghost count of calls made through function values so far
 		return TV{env.cur.Get(vc.dynKey()), tInt}, nil
+	case "calls": // calls("(*T).f"): ghost count of calls of the named function so far (a lower bound: it grows strictly at every direct call)
+		if len(x.Args) != 1 {
+			return TV{}, fmt.Errorf("calls() takes the name of a function as a string")
+		}
+		bl, ok := x.Args[0].(*EStr)
+		if !ok {
+			return TV{}, fmt.Errorf("calls() takes the name of a function as a string")
+		}
+		nm := bl.V
+		vc.mentionedCalls[nm] = true
+		return TV{env.cur.Get(vc.callsKey(nm)), tInt}, nil
 	case "atentry": // atentry(expr): expr with variables AND heap as they were when the loop was entered
 		if env.loopEntry == nil || env.lookupEntry == nil {
 			return TV{}, fmt.Errorf("atentry() outside a loop clause")
